@@ -88,6 +88,14 @@ def excluded(excl, c, fn, cfg):
     return None
 
 
+def load_quick_skip(prop):
+    p = os.path.join(ROOT, 'quick_skip.json')
+    if not os.path.exists(p):
+        return []
+    return [e for e in json.load(open(p)).get('thorough_only', []) if e['property'] == prop]
+
+
+NOT_RUN_QUICK = []
 NOT_COVERED = []
 UNMATCHED = []
 SLOWEST = []
@@ -102,6 +110,8 @@ def gather(prop, cfgs, only=None, tier='thorough'):
     excl = load_exclusions(prop)
     del NOT_COVERED[:]
     del UNMATCHED[:]
+    del NOT_RUN_QUICK[:]
+    qskip = load_quick_skip(prop) if tier == 'quick' else []
     res = P.extract_many(cfgs)
     for cfg in cfgs:
         db = P.load_db(cfg)
@@ -126,6 +136,12 @@ def gather(prop, cfgs, only=None, tier='thorough'):
                                     'configuration': cfg, 'reason': ex['reason'][:160]})
                 continue
             if only and not re.search(only, '%s %s %s %s' % (c.family, fn['name'], fn.get('owner'), ' '.join(p['ctype'] for p in fn['params']))):
+                continue
+            qs = excluded(qskip, c, fn, cfg)
+            if qs:
+                # too slow for the check that runs on every change: discharged by the thorough tier only, and listed as such
+                NOT_RUN_QUICK.append({'function': '%s %s(%s) [%s]' % (c.family, fn['name'], ', '.join(p['ctype'] for p in fn['params']), fn.get('owner') or '-'),
+                                      'configuration': cfg, 'reason': qs['reason'][:200]})
                 continue
             n += 1
             repl = {}
@@ -400,6 +416,8 @@ def write_ev(prop, tier, cfgs, obs, passed, violations, known_hits, undecided, c
             'partial_domain_obligations_discharged_not_counted_as_proof': n_partial,
             'api_functions_without_contract': sorted(set(UNMATCHED))[:200],
             'slowest_obligations': list(SLOWEST),
+            'thorough_tier_only': NOT_RUN_QUICK[:300],
+            'thorough_tier_only_count': len(NOT_RUN_QUICK),
             'not_covered': NOT_COVERED[:200],
             'not_covered_count': len(NOT_COVERED),
             'partial_domain_functions': sorted({ob.ident() + ': ' + ob.contract.partial for ob in obs if getattr(ob.contract, 'partial', None)})[:80],
